@@ -168,3 +168,13 @@ META["C40"] = dict(technique=_FN_TECH,
     note="This is model-driven structured mutation, not coverage-guided fuzzing; 'every byte string' is sampled by class. The WebRTC signal decoder is exercised by C26 (tamper / garbage classes).",
     text="WireGrammar.tla enumerates decoder x malformed-frame class x variant; each case is built from a valid encoding and fed to the real decoder under recover with the allocation measured: "
          "value or error, no panic, allocation bounded by the decoder's configured maximum plus slack even when a length prefix or an inner length field claims gigabytes.")
+REGISTRY["C03"] = ("linkauth", "c03")
+REGISTRY["C05"] = ("linkauth", "c05")
+_LA_TECH = ("TLC-enumerated case tables (fn/SymTLS.tla certificate classes, fn/DialHist.tla owner histories) replayed through the real TLS verifier, real QUIC handshakes "
+            "and a real transport controller over an in-memory packet network; TLC model checking of LinkDial.tla (safety + liveness); recorded dial traces judged by TLC (LinkDialMon.tla)")
+META["C03"] = dict(technique=_LA_TECH, note="Certificate classes are symbolic (Dolev-Yao); the pconn carrier is run, websocket/webrtc/conn share the same verifier and quic Transport.",
+    text="All 216 (chain length, self-signed?, key-binding extension class, expected peer) chains: accepted iff single self-signed certificate with a valid binding and the expected peer (if any) matches, "
+         "identity = the key that signed the binding. Real handshakes: honest pair, impostor, expected-peer mismatch, six forged client certificates; every reported link names an identity that took part.")
+META["C05"] = dict(technique=_LA_TECH, note="Liveness is checked with a 20 s bound after X finally owns the address; address take-over is silent (old owner's packets dropped).",
+    text="LinkDial.tla: DialSound (done => link to X) and DialLive (<>[] owner=X => eventually done) hold for all interleavings of <= 3 owner changes with attempts/retries. "
+         "All owner histories over {X, impostor, nobody} up to 3 (4) phases against Controller.DialPeerAddr and Transport.DialPeer: success only with a link to X; satisfied once X is reachable.")
